@@ -633,10 +633,12 @@ pub fn listen<S: ?Sized + AsRef<str>, H: crate::ConnectionHandler + Send + Sync 
                 match res {
                     Ok((rest, i)) => {
                         let just_upgraded = iface.is_none() && i.is_some();
+                        let progressed = rest != unread;
                         iface = i;
                         unread = if iface.is_some() { rest } else { Vec::new() };
-                        if just_upgraded && !unread.is_empty() {
-                            // the upgraded handler has not seen these bytes yet
+                        if !unread.is_empty() && (just_upgraded || progressed) {
+                            // the upgraded handler has not seen (all of) these
+                            // bytes yet: no need to wait for more input
                             continue;
                         }
                         match br.fill_buf() {
